@@ -39,7 +39,11 @@ def docs():
     d7 = SCHEMA(types=[schemas.IMPORTSRC("zcvpkg_lib"), TYPE("mx", [K("k1")], implements="labs"),
                        TYPE("ux", [K("k2")], extends="l1")],
                 children=[MSEC("lbox", "*", "boxes"), SEC("labs", "*", "one")])
-    return [d1, d2, d3, d4, d5, copy.deepcopy(d1), d7]
+    # a required slot of an abstract type that has no implementer when the slot is declared: every implementer
+    # comes later (one further down in the schema, the others from %import-ed packages)
+    d8 = SCHEMA(types=[ABS("abs1"), ABS("abs2")],
+                children=[MSEC("abs1", "+", "impls", required=True), SEC("abs2", "*", "two")])
+    return [d1, d2, d3, d4, d5, copy.deepcopy(d1), d7, d8]
 
 
 LINES = {
@@ -55,6 +59,7 @@ LINES = {
         "<pa2 fixed/>", "<pc1 fixed/>"],
     2: ["%import zcvpkg_a", "%import zcvpkg_b", "<box>", "</box>", "<pa1 n1/>", "<pb1/>", "<pa1/>", "%import zcvpkg_c"],
     3: ["%import zcvpkg_a", "%import zcvpkg_b", "<pa1 n1/>", "<pb1 n2/>", "<pa2/>", "<t1/>", "%import zcvpkg_nocomp"],
+    7: ["%import zcvpkg_a", "%import zcvpkg_c", "<pa1 n1/>", "<pa2 n2/>", "<pc1/>", "<pa1/>", "%import zcvpkg_b", "<pb1 n3/>"],
     6: ["<lbox>", "</lbox>", "<mx/>", "<l1/>", "%import zcvpkg_l2", "<pl2/>", "<mx fixed/>", "<ux/>", "<pl2 fixed/>"],
     4: ["%import zcvpkg_d", "<pd1 n1/>", "<wbase n2/>", "<wbase n3>", "</wbase>", "Gamma gv", "<pd1>", "</pd1>", "own v1"],
 }
@@ -98,7 +103,13 @@ def record_session(ws, sc, sid, idxs, mutate_after=(), one_loader=False):
     (an application re-reading its configuration), otherwise each load gets a fresh loader."""
     from . import c02
     import ZConfig.loader
-    sch = loadgen.real_schema(sc.docs[sid], fresh=True)
+    try:
+        sch = loadgen.real_schema(sc.docs[sid], fresh=True)
+    except Exception as e:
+        import ZConfig
+        if not isinstance(e, ZConfig.ConfigurationError):
+            raise
+        return None      # the schema itself is refused (reported with the single loads): no session to record
     rec = (sc.proj_recs or sc.recs)[sid]
     s = {"sid": sid + 1, "digest0": scenario.session_digest(sch), "steps": [], "_items": idxs,
          "_one_loader": one_loader}
@@ -146,7 +157,7 @@ def run(chk):
         sc.packages = packages.abstract_packages()
         sc.proj_recs = proj_recs(sc)
         maxlen = 3 if quick else 4
-        chk.rule = ("7 schemas (abstract types with implementing, extending and unrelated concrete types; abstract slots "
+        chk.rule = ("8 schemas (abstract types with implementing, extending and unrelated concrete types; abstract slots "
                     "named '*', '+' and fixed; nested) x every text of <= %d lines over: %%import of 3 generated component "
                     "packages (one in another letter case), of a package without component, a plain module, a missing "
                     "package and a name with an empty dotted part; headers of every schema / package type and of the "
@@ -211,6 +222,7 @@ def run(chk):
                 sessions.append(record_session(ws, sc, 0, idxs, one_loader=True))
         finally:
             ws.close()
+        sessions = [x for x in sessions if x is not None]
         scenario.validate_sessions(chk, sc, sessions, describe(sc))
         chk.sample({"text": sc.items[-7]["files"]["d/main.conf"], "spec": outs[-7]["o"]["r"]})
         chk.note("scenarios", len(sc.items))
